@@ -15,10 +15,10 @@ func init() {
 	register(&propDef{
 		ID:      "C09",
 		Level:   "other",
-		Explain: "Structural necessary conditions of byte-stream transparency, each quantifying over all segmentations / close orders. The rules are evaluated per TUNNEL: a tcp.Handler implementation of package proxy/tcp that dials (found through the method set, whatever the receiver kind), or the HTTP handler of package proxy that hijacks the client connection (found by what it does, closure or method alike), together with its REGION (the same-package helpers, closures and goroutine bodies it reaches); sites are found by role inside the region, values are compared by object identity across helper parameters, results, captured variables, struct fields (whoever stores them: constructor, method, field assignment) and methods reached through an interface of the repository (c09_flow.go); a struct that is itself a reader (a buffered connection: embedded net.Conn, Read overridden to read through its bufio.Reader) counts as what its Read method reads from. (B1) once a buffered reader (bufio.NewReader, or the ReadWriter returned by Hijack) has been placed over a connection, the raw connection is never used as a copy source afterwards — the reader is — and a hijacked ReadWriter is not discarded; (B2) a tunnel that starts copy goroutines receives as many completions as it started on every path to return, wherever the go statements and the receives live (otherwise the deferred Close of both sides cuts the direction still running: a client that half-closes after sending loses the reply); the obligation is keyed by the tunnel, not by the function that happens to contain the go statements; (B3) copy loops write exactly buf[0:n] with n the count returned by the read of the same buffer in the same iteration, (a handshake relay that collects one message with several reads into windows buf[n:] writes buf[0:n] once, after its loop, with n the sum of the counts those reads returned), and a short or failed write leaves the loop with an error; a streaming relay writes the bytes a read returned before it looks at the read error; (B4) when the route asks for the PROXY protocol the header is written before any other byte can reach the upstream, and a buffer filled by a consuming read from the client before the tunnel starts (the captured ClientHello) is written to the upstream, whole, before the copy goroutines start; (B5) every tcp.Handler implementation that dials supports the PROXY header option; (W1) every connection wrapper of proxy/tcp (a struct over a net.Conn that implements Read/Write/Close) forwards Read/Write/Close unchanged - to the wrapped connection, or for Read to a reader that was placed over that very connection - and makes no other call of that method on the wrapped connection. (B6) Peek lengths stay within the reader buffer. (B7) no SetLinger(n >= 0) on a tunnel connection (Close would discard queued data); Not decided: byte-for-byte delivery over real sockets (run-time behaviour of the kernel and net package).",
+		Explain: "Structural necessary conditions of byte-stream transparency, each quantifying over all segmentations / close orders. The rules are evaluated per TUNNEL: a tcp.Handler implementation of package proxy/tcp that dials (found through the method set, whatever the receiver kind), or the HTTP handler of package proxy that hijacks the client connection (found by what it does, closure or method alike), together with its REGION (the same-package helpers, closures and goroutine bodies it reaches); sites are found by role inside the region, values are compared by object identity across helper parameters, results, captured variables, struct fields (whoever stores them: constructor, method, field assignment) and methods reached through an interface of the repository (c09_flow.go); a struct that is itself a reader (a buffered connection: embedded net.Conn, Read overridden to read through its bufio.Reader) counts as what its Read method reads from. (B1) once a buffered reader (bufio.NewReader, or the ReadWriter returned by Hijack) has been placed over a connection, the raw connection is never used as a copy source afterwards — the reader is — and a hijacked ReadWriter is not discarded; (B2) a tunnel that starts copy goroutines receives as many completions as it started on every path to return, wherever the go statements and the receives live (otherwise the deferred Close of both sides cuts the direction still running: a client that half-closes after sending loses the reply); the obligation is keyed by the tunnel, not by the function that happens to contain the go statements; (B3) copy loops write exactly buf[0:n] with n the count returned by the read of the same buffer in the same iteration, (a handshake relay that collects one message with several reads into windows buf[n:] writes buf[0:n] once, after its loop, with n the sum of the counts those reads returned - or, the hand-written io.ReadFull, is left towards the write only when that sum has reached len(buf) and writes the buffer unsliced; such a loop may live in a helper of its own whose every return either knows the buffer is full or hands back a non-nil error, the callers then write the buffer whole), and a short or failed write leaves the loop with an error; the Read and the Write of a relay are also recognised behind forwarding helpers (a function that hands its own parameter to one Read / Write and returns exactly what that call returned) and the Write inside a helper that is handed exactly the slice to write and returns an error only - the short-write and error tests are then looked for inside that helper and the caller must test the helper's error; a buffer may be array-backed (Read(hs[:]), Write(hs[:n])); a streaming relay writes the bytes a read returned before it looks at the read error; (B4) when the route asks for the PROXY protocol the header is written before any other byte can reach the upstream, and a buffer filled by a consuming read from the client before the tunnel starts (the captured ClientHello: io.ReadFull / io.ReadAtLeast, or the hand-written equivalent - a Read into the window buf[n:] with n the running count) is written to the upstream, whole (a Write, possibly through a forwarding helper, or io.Copy from a bytes.NewReader over the buffer), before the copy goroutines start; (B5) every tcp.Handler implementation that dials supports the PROXY header option; (W1) every connection wrapper of proxy/tcp (a struct over a net.Conn that implements Read/Write/Close) forwards Read/Write/Close unchanged - to the wrapped connection, or for Read to a reader that was placed over that very connection - and makes no other call of that method on the wrapped connection. (B6) Peek lengths stay within the reader buffer. (B7) no SetLinger(n >= 0) on a tunnel connection (Close would discard queued data); Not decided: byte-for-byte delivery over real sockets (run-time behaviour of the kernel and net package).",
 		Run:     runC09,
 		Trusted: []string{"bufio.Reader returns buffered bytes before reading from the underlying connection", "io.Copy/copyBuffer deliver what Read returns, in order"},
-		Mutants: append(append([]mutant{}, c09mutants...), c09mutants2...),
+		Mutants: c09devFilter(append(append(append([]mutant{}, c09mutants...), c09mutants2...), c09mutants3...)...),
 	})
 }
 
@@ -34,6 +34,7 @@ type c09relay struct {
 	rd, wr *ssa.Call
 	sl     *ssa.Slice // the slice expression written, nil when the buffer is written unsliced
 	rsl    *ssa.Slice // the window buf[lo:] the read fills when it reads into a part of the buffer (an accumulating read), else nil
+	inner  *ssa.Call  // wr is a call of a write-through helper (c09_fwd.go): the Write inside the helper, else nil
 }
 
 type c09tunnel struct {
@@ -108,13 +109,22 @@ func c09relaysOf(f *ssa.Function) (relays []c09relay, unmatched []*ssa.Call) {
 		if !ok {
 			return
 		}
-		if _, args, ok := c09ioCall(&call.Call, "Read"); ok && len(args) == 1 && c09isByteSlice(args[0].Type()) {
+		// src.Read(buf), or a call of a helper that forwards to one (c09_fwd.go)
+		if _, buf, ok := c09ioFwd(call, "Read", 0); ok {
+			args := []ssa.Value{buf}
 			rs := &rdSite{call: call, roots: c09roots(args[0])}
 			// a read into a window of a buffer (`Read(b[n:])`, the accumulating read of a handshake relay) fills that
 			// buffer: the write of (a slice of) the buffer relays it (round 4)
 			if win := c09window(args[0]); win != nil {
 				rs.win = win
 				for k, v := range c09roots(win.X) {
+					rs.roots[k] = v
+				}
+			}
+			// a read into the whole of an array-backed buffer (`var hs [1024]byte; Read(hs[:])`) fills that array: the
+			// write of another slice of it (hs[:n]) relays it (hardening round 3)
+			if sl, ok := args[0].(*ssa.Slice); ok && rs.win == nil && (sl.Low == nil || isZero(sl.Low)) && sl.High == nil && c09isByteBuf(sl.X.Type()) {
+				for k, v := range c09roots(sl.X) {
 					rs.roots[k] = v
 				}
 			}
@@ -129,10 +139,15 @@ func c09relaysOf(f *ssa.Function) (relays []c09relay, unmatched []*ssa.Call) {
 		if !ok {
 			return
 		}
-		_, args, ok := c09ioCall(&call.Call, "Write")
-		if !ok || len(args) != 1 || !c09isByteSlice(args[0].Type()) {
-			return
+		_, wbuf, ok := c09ioFwd(call, "Write", 0)
+		var inner *ssa.Call
+		if !ok {
+			// the write block of the loop extracted into a helper that reports with an error only (`flush(dst, buf[:nr])`)
+			if inner, wbuf, ok = c09writeThrough(call); !ok {
+				return
+			}
 		}
+		args := []ssa.Value{wbuf}
 		// the buffer itself, or a slice of it (make([]byte, K) is itself a Slice of an array in SSA: try the value first)
 		match := func(buf ssa.Value) *rdSite {
 			br := c09roots(buf)
@@ -155,10 +170,10 @@ func c09relaysOf(f *ssa.Function) (relays []c09relay, unmatched []*ssa.Call) {
 			return
 		}
 		hit.used = true
-		relays = append(relays, c09relay{fn: f, rd: hit.call, wr: call, sl: sl, rsl: hit.win})
+		relays = append(relays, c09relay{fn: f, rd: hit.call, wr: call, sl: sl, rsl: hit.win, inner: inner})
 	})
 	for _, r := range reads {
-		if !r.used && !c09forwardingRead(f, r.call) {
+		if !r.used && !c09forwardingRead(f, r.call) && !c09fwdInner(f, r.call, "Read") {
 			unmatched = append(unmatched, r.call)
 		}
 	}
@@ -392,7 +407,7 @@ func (t *c09tunnel) copySources() []c09src {
 		case c09copyFns[calleeName(&call.Call)] && len(call.Call.Args) >= 2:
 			out = append(out, c09src{i, call.Call.Args[1]})
 		case t.relayRead[i]:
-			recv, _, _ := c09ioCall(&call.Call, "Read")
+			recv, _, _ := c09ioFwd(call, "Read", 0)
 			out = append(out, c09src{i, recv})
 		default:
 			if recv, _, ok := c09ioCall(&call.Call, "WriteTo"); ok {
